@@ -106,7 +106,20 @@ func genHistory(c *ctx) []histStep {
 	for i := 0; i < n; i++ {
 		o := zh.RandOpts(c.R, 0, fmt.Sprintf("h%d", i))
 		st := histStep{mode: randMode(c)}
-		switch c.R.Intn(7) {
+		switch c.R.Intn(8) {
+		case 7: // more than 32 distinct field names
+			st.kind = "manyfields"
+			nd := 1 + c.R.Intn(3)
+			for d := 0; d < nd; d++ {
+				doc := zh.Doc{Fields: []zh.Field{zh.IDField(fmt.Sprintf("h%dm%02d", i, d))}}
+				for f := 0; f < 34+c.R.Intn(12); f++ {
+					doc.Fields = append(doc.Fields, zh.Field{Name: fmt.Sprintf("f%02d", f), Len: 1, DV: f%5 == 0,
+						Toks: []zh.Tok{{Term: fmt.Sprintf("t%d", (f+d)%4), Freq: 1}}})
+				}
+				st.b = append(st.b, doc)
+			}
+			h = append(h, st)
+			continue
 		case 0: // large, many fields, many terms
 			o.NDocs, o.NFields, o.VocabN, o.DVMask, o.FixedFields = 20+c.R.Intn(40), len(zh.FieldNames), len(zh.Vocab), 31, true
 			st.kind = "large"
